@@ -60,7 +60,8 @@ structure AllocPost (E : Nat) (s s' : St) (sz al : Nat) (o : Outcome Nat) : Prop
       ∃ refs, AllRefused refs ∧
         (s'.evs = s.evs ++ refs ∧ s'.a.chunks.length = s.a.chunks.length ∨
          ∃ c, s'.a.chunks = c :: s.a.chunks ∧ s'.evs = s.evs ++ refs ++ [.malloc c.size c.align (some c.data)] ∧
-           0 < usable c ∧ (∀ L, s.a.limit = some L → s.a.allocatedBytes E + usable c ≤ L))
+           0 < usable c ∧ (∀ L, s.a.limit = some L → s.a.allocatedBytes E + usable c ≤ L) ∧
+           (∃ k, max (usable (s.a.cur E) * 2) (max sz DEFAULT_CHUNK_SIZE_WITHOUT_FOOTER) / 2 ^ k ≤ usable c))
   fail : o = .err ∨ o = .panic → s'.a = s.a ∧ ∃ refs, AllRefused refs ∧ s'.evs = s.evs ++ refs
 
 theorem consChunk_wf {E a c d} (h : ArenaWF E a) (hf : FreshChunk E a.chunks a.M d (a.allocatedBytes E) c) :
@@ -129,7 +130,7 @@ theorem allocSlow_spec {E sz al} (s : St) (hE : EnvOK E) (h : ArenaWF E s.a) (hA
   obtain ⟨s1, o1⟩ := r
   obtain ⟨ha, hm, hc⟩ := hsp
   simp only at ha hm hc
-  rcases hc with ⟨ho, refs, hev, hrf⟩ | ho | ⟨c, d, n0, refs, ho, hd, hfc, hfit, hrf, hev⟩
+  rcases hc with ⟨ho, refs, hev, hrf⟩ | ho | ⟨c, d, n0, refs, ho, hd, hfc, ⟨kc, hkc⟩, hfit, hrf, hev⟩
   · subst ho
     simp only [bindO]
     exact ⟨⟨(by intro w; simp), hm, (by rw [ha]), (by rw [ha]), (by intro p hp; cases hp), (by intro p hp; cases hp),
@@ -179,7 +180,7 @@ theorem allocSlow_spec {E sz al} (s : St) (hE : EnvOK E) (h : ArenaWF E s.a) (hA
         intro q hq
         cases hq
         refine ⟨hwf'', eff.al_dvd, eff.m_dvd, eff.nz, Or.inr (Or.inr ⟨c, hc0', hge, by rw [← hfc.ptr_eq]; exact hle,
-          hfc.ptr_eq, hfc.disj, hfc.sdisj, ?_⟩), refs, hrf, Or.inr ⟨_, hc0', ?_, ?_, ?_⟩⟩
+          hfc.ptr_eq, hfc.disj, hfc.sdisj, ?_⟩), refs, hrf, Or.inr ⟨_, hc0', ?_, ?_, ?_, ?_⟩⟩
         · rw [hfc.ab_eq]; unfold usable; have := hd.size_eq; rw [hfc.size_eq]; omega
         · simpa using hev
         · have hus : usable { c with ptr := p' } = d.nswf := by
@@ -192,6 +193,13 @@ theorem allocSlow_spec {E sz al} (s : St) (hE : EnvOK E) (h : ArenaWF E s.a) (hA
           simp only [fitsUnderLimit, limitRemaining, hL, Option.map_some, decide_eq_true_eq] at hfit
           have hp0 : 0 < d.nswf := hfc.nswf_pos
           omega
+        · have hus : usable { c with ptr := p' } = d.nswf := by
+            unfold usable; show c.size - FOOTER_SIZE = _; rw [hfc.size_eq, hd.size_eq]; omega
+          rw [hus]
+          refine ⟨kc, ?_⟩
+          have := hd.ge_req
+          rw [hkc] at this
+          exact this
 
 end Bump
 
